@@ -440,8 +440,17 @@ class Explorer:
 
     def choose(self, name, n):
         """nondeterministic choice 0..n-1, explored exhaustively (forks)"""
+        if n <= 1:
+            return 0
         c = self.fresh_int(name, 0, n - 1)
-        return self.concretize(c)
+        lo, hi = 0, n - 1          # binary splitting: depth log2(n)
+        while lo < hi:
+            mid = (lo + hi) // 2
+            if self.branch(c.t <= mid):
+                hi = mid
+            else:
+                lo = mid + 1
+        return lo
 
     def concretize(self, x, limit=4096):
         """enumerate the feasible values of x by forking; returns a python int on each path"""
@@ -593,3 +602,9 @@ class Fuel:
 
 
 FUEL = Fuel()
+
+
+def choose(name, options):
+    """nondeterministic choice among a concrete list, explored exhaustively"""
+    options = list(options)
+    return options[cur().choose(name, len(options))]
